@@ -138,7 +138,8 @@ class AddCyclicMemoryLayout_contract:
     """the layout chosen for every operand is one-to-one and covers exactly the operand shape"""
     target = "snaxc.transforms.set_memory_layout.AddCyclicMemoryLayout.match_and_rewrite"
     shapes = SCHED
-    quick = lambda sh: sh["n"] <= 2
+    # quick: up to two loops, plus ONE three-loop shape (three tile levels on one dimension, ~100 s on one core)
+    quick = lambda sh: sh["n"] <= 2 or (sh["rank"] == 1 and sh["tiled"] and sh["sd"] == 0)
     total = True
     compare_ret = False
     modular = {"snaxc.transforms.set_memory_layout.spatial_dims": spatial_dims_contract,
